@@ -476,7 +476,23 @@ def _xor_width(ctx):
 
 
 def c02_8(ctx):
-    """parity normalisation of the secret, the nonce and the verification key"""
+    """parity normalisation of the secret, the nonce and the verification key: the dataflow reading below is primary where the code is in the
+    form it reads; what it cannot place is decided by the signer cells (C02.15) and the verifier cells (C02.16)"""
+    try:
+        out = _c02_8_struct(ctx)
+    except AnalysisError as e:
+        mod, fn = rl.get(ctx, "pecc:PrivateKey.sign_schnorr")
+        out = [ctx.err("pecc:PrivateKey.sign_schnorr", str(e), fn, mod) for _ in range(FLOORS["C02.8"])]
+    signer = [r for r in out if "verify_schnorr" not in r.anchor]
+    verifier = [r for r in out if "verify_schnorr" in r.anchor]
+    rl.defer(ctx, signer, lambda: _signer_cells(ctx) or [None], "decided by the signer cells (C02.15: key format × key parity × nonce parity, signature equals BIP340 Sign); "
+             "the normalisation is not in the form the dataflow rule reads")
+    rl.defer(ctx, verifier, lambda: _verifier_cells(ctx), "decided by the verifier cells (C02.16: keys of both parities verify the same signatures, BIP340's rejections hold); "
+             "the normalisation is not in the form the dataflow rule reads")
+    return out
+
+
+def _c02_8_struct(ctx):
     out = []
     spec = "pecc:PrivateKey.sign_schnorr"
     mod, fn = rl.get(ctx, spec)
@@ -895,6 +911,131 @@ def _signer_cells_(ctx):
     return out
 
 
+def _verifier_cells(ctx):
+    if not hasattr(ctx, "_c02_verifier"):
+        ctx._c02_verifier = _verifier_cells_(ctx)
+    return ctx._c02_verifier
+
+
+def _verifier_cells_(ctx):
+    """S256Point.verify_schnorr evaluated by the engine's own evaluator against BIP340's Verify(pk, m, sig).  Points are the rule's model of
+    secp256k1 (discrete logarithm kept next to the coordinates; scalar multiplication, addition, construction from coordinates and the x-only
+    encoding are the rule's reference implementation -- C03's subject); the challenge hash is BIP340's tagged hash computed with the standard
+    library.  Cells: key of even and of odd Y (the same x-only key: both must verify) × four messages: the BIP340 signature is accepted; a
+    changed s, the negated s, a changed message, another key, R at infinity, a result at infinity and a result with odd Y (s built from the
+    negated nonce) are refused with False"""
+    import hashlib
+    from sa.cells import Evaluator, Obj, Raised, Undecided
+    spec = "pecc:S256Point.verify_schnorr"
+    mod, fn = rl.get(ctx, spec)
+    known = {}
+
+    def fld(v):
+        return Obj("pecc", "S256Field", {"num": v, "prime": _P})
+
+    def pt(k):
+        k %= N
+        xy = _ref_mul(k)
+        if xy is None:
+            return Obj("pecc", "S256Point", {"k": 0, "x": None, "y": None, "parity": None, "a": fld(0), "b": fld(7)})
+        known[xy] = k
+        return Obj("pecc", "S256Point", {"k": k, "x": fld(xy[0]), "y": fld(xy[1]), "parity": xy[1] & 1, "a": fld(0), "b": fld(7)})
+
+    def num(v):
+        return v.attrs["num"] if isinstance(v, Obj) else v
+
+    def init(o, x=None, y=None, a=None, b=None):
+        x, y = num(x), num(y)
+        if x is None and y is None:
+            o.attrs.update(pt(0).attrs)
+        elif (x, y) in known:
+            o.attrs.update(pt(known[(x, y)]).attrs)
+        elif isinstance(x, int) and isinstance(y, int) and (x, (_P - y) % _P) in known:
+            o.attrs.update(pt(N - known[(x, (_P - y) % _P)]).attrs)
+        else:
+            raise Undecided("a point built from coordinates outside the model")
+
+    def xonly(p):
+        if p.attrs["x"] is None:
+            raise Raised("AttributeError")
+        return p.attrs["x"].attrs["num"].to_bytes(32, "big")
+
+    def rmul(p, c):
+        if not isinstance(c, int) or "k" not in p.attrs:
+            raise Undecided("scalar multiple of a point outside the model")
+        return pt(c * p.attrs["k"])
+
+    def add(p, o):
+        if isinstance(o, int):
+            return pt(p.attrs["k"] + o)
+        if isinstance(o, Obj) and "k" in o.attrs and "k" in p.attrs:
+            return pt(p.attrs["k"] + o.attrs["k"])
+        raise Undecided("sum of points outside the model")
+
+    def eq(p, o):
+        return isinstance(o, Obj) and o.attrs.get("k") == p.attrs.get("k")
+
+    tagh = hashlib.sha256(b"BIP0340/challenge").digest()
+
+    def h_ch(m):
+        return hashlib.sha256(tagh + tagh + bytes(m)).digest()
+
+    hooks = {("S256Point", "__rmul__"): rmul, ("S256Point", "__add__"): add, ("S256Point", "xonly"): xonly, ("S256Point", "__init__"): init,
+             ("S256Point", "__eq__"): eq, ("S256Point", "__ne__"): lambda p, o: not eq(p, o)}
+    ext = {"G": pt(1), "hash_challenge": h_ch}
+    secrets = {}
+    d0 = 0x0C0C0C0C0C0C0C0C0C0C0C0C0C0C0C0C0C0C0C0C0C0C0C0C0C0C0C0C0C0C0C0C
+    while len(secrets) < 2:
+        secrets.setdefault(_ref_mul(d0)[1] % 2, d0)
+        d0 += 1
+    n = 0
+
+    def sig(r, s_):
+        return Obj("pecc", "SchnorrSignature", {"r": r, "s": s_})
+    try:
+        for par, d0 in sorted(secrets.items()):
+            d = d0 if par == 0 else N - d0            # the secret of the even-Y key
+            px = _ref_mul(d0)[0].to_bytes(32, "big")
+            for i in range(4):
+                m = hashlib.sha256(b"v%d" % i).digest()
+                k = int.from_bytes(hashlib.sha256(b"k%d" % i + px).digest(), "big") % N
+                if _ref_mul(k)[1] & 1:
+                    k = N - k
+                rx = _ref_mul(k)[0].to_bytes(32, "big")
+                e = int.from_bytes(h_ch(rx + px + m), "big") % N
+                s_ = (k + e * d) % N
+                m2 = hashlib.sha256(m).digest()
+                cases = [("the BIP340 signature", pt(d0), m, sig(pt(k), s_), True),
+                         ("the BIP340 signature under the same x-only key given with the other Y", pt(N - d0), m, sig(pt(k), s_), True),
+                         ("a signature with s + 1", pt(d0), m, sig(pt(k), (s_ + 1) % N), False),
+                         ("a signature with s negated", pt(d0), m, sig(pt(k), N - s_), False),
+                         ("the signature of another message", pt(d0), m2, sig(pt(k), s_), False),
+                         ("the signature under another key", pt(d0 + 1), m, sig(pt(k), s_), False),
+                         ("a signature whose R is the point at infinity", pt(d0), m, sig(pt(0), s_), False),
+                         ("a signature for which s·G − e·P is the point at infinity", pt(d0), m, sig(pt(k), (e * d) % N), False),
+                         ("a signature built from the negated nonce (s·G − e·P has R's x and an odd Y)", pt(d0), m, sig(pt(k), (N - k + e * d) % N), False)]
+                for what, key, msg, sg, want in cases:
+                    n += 1
+                    where = "key with %s Y, %s" % ("odd" if key.attrs["parity"] else "even", what)
+                    try:
+                        got = Evaluator(ctx.repo, method_hooks=hooks, externals=ext, max_steps=400000).call(spec, [msg, sg], self_obj=key)
+                    except Raised as x:
+                        ctx.count("cells", n)
+                        return [ctx.bad(spec, "%s: the verifier raises %s where BIP340 verification returns %s" % (where, x.name, want), fn, mod, key="verifier-cells")]
+                    if bool(got) is not want or not isinstance(got, bool):
+                        ctx.count("cells", n)
+                        return [ctx.bad(spec, "%s: the verifier returns %r, BIP340 verification gives %s" % (where, got, want), fn, mod, key="verifier-cells")]
+    except Undecided as u:
+        return [ctx.err(spec, "verifier outside the evaluator's subset: %s" % u, fn, mod)]
+    ctx.count("cells", n)
+    return [ctx.ok(spec, "%d cells (key parity × message × valid signature / 7 invalid ones): the verdict equals BIP340 Verify computed by the rule's own secp256k1" % n, fn, mod, key="verifier-cells")]
+
+
+def c02_16(ctx):
+    """CELLS verifier: verify_schnorr against BIP340 Verify over key parity and the rejection reasons"""
+    return _verifier_cells(ctx)
+
+
 def c02_15(ctx):
     """CELLS signer: the whole signing path over key format, key parity and nonce parity"""
     r = _signer_cells(ctx)
@@ -907,6 +1048,7 @@ def c02_15(ctx):
 OBLIGATIONS = [
     ("C02.14", "REJECT-SET", c02_14),
     ("C02.15", "CELLS signer", c02_15),
+    ("C02.16", "CELLS verifier", c02_16),
     ("C02.13", "SHARED", c02_13),
     ("C02.12", "SET-ORDER", c02_12),
     ("C02.10", "MEMO", c02_10),
@@ -921,4 +1063,4 @@ OBLIGATIONS = [
     ("C02.9", "LAYOUT codec", c02_9),
     ("C02.11", "RANGE+DATAFLOW scalar discipline", c02_11),
 ]
-FLOORS = {"C02.15": 1, "C02.1": 21, "C02.3": 2, "C02.4": 4, "C02.6": 4, "C02.7": 3, "C02.8": 5, "C02.9": 2}
+FLOORS = {"C02.15": 1, "C02.16": 1, "C02.1": 21, "C02.3": 2, "C02.4": 4, "C02.6": 4, "C02.7": 3, "C02.8": 5, "C02.9": 2}
